@@ -14,7 +14,7 @@ ROOT = os.path.dirname(os.path.dirname(os.path.abspath(__file__)))
 # other checks worth running on a change made for a given property (same anchors)
 RELATED = {'C01': ['C13', 'C17'], 'C02': ['C13', 'C17'], 'C03': ['C19', 'C12'], 'C04': ['C16'], 'C05': ['C19'], 'C06': [], 'C07': ['C17'], 'C08': ['C17', 'C12', 'C06'],
            'C09': [], 'C10': ['C11', 'C12', 'C13', 'C14'], 'C11': ['C10', 'C12', 'C13', 'C14'], 'C12': ['C14', 'C03'], 'C13': ['C01', 'C06', 'C07', 'C14', 'C10', 'C11'], 'C14': ['C03', 'C12', 'C17'],
-           'C15': ['C20'], 'C16': ['C05'], 'C17': ['C01', 'C02', 'C03'], 'C18': [], 'C19': ['C05', 'C03'], 'C20': ['C15']}
+           'C15': ['C20'], 'C16': ['C05'], 'C17': ['C01', 'C02', 'C03', 'C08'], 'C18': [], 'C19': ['C05', 'C03'], 'C20': ['C15']}
 
 
 def sh(cmd, **kw):
